@@ -56,7 +56,7 @@ def gen_circle(rng, nmax):
     """(class, r, n, cx, cy, origin) — r >= 0; the dyadic classes are exact in binary64"""
     n = rng.randint(1, nmax)
     origin = rng.choice(["middle", "corner"])
-    cls = rng.choice(["dyadic", "dyadic", "tie", "tie", "float", "edge", "rzero", "int", "centred", "large", "bigtie", "huge"])
+    cls = rng.choice(["dyadic", "dyadic", "tie", "tie", "float", "edge", "rzero", "int", "centred", "large", "bigtie", "huge", "sqrt-tie", "sqrt-tie"])
     half = n / 2.0
     base = 0.0 if origin == "middle" else half          # centre of the array in the coordinates of `origin`
     if cls == "dyadic":
@@ -72,6 +72,17 @@ def gen_circle(rng, nmax):
         ccx, ccy = j + 0.5 - sx * a * s, i + 0.5 - sy * b * s
         r = c * s
         cx, cy = (ccx - half, ccy - half) if origin == "middle" else (ccx, ccy)
+    elif cls == "sqrt-tie":
+        # round 6 — IRRATIONAL razor-edge radii: r = sqrt(a² + b²) rounded to a double, or one of its two neighbours, for a pixel centre at the
+        # half-integer (or integer) offset (a, b) from a dyadic centre.  The coordinates and squared distances are exact in binary64, so the
+        # exact indicator is decidable and demanded (no tolerance): r*r and hypot(x, y) are each one rounding away from deciding it wrongly
+        # (fixed defect bdc31f8: r = fl(sqrt(18.5)) is below the root and r*r rounds up to 18.5; seeded change C14-K: hypot(x, y) <= r)
+        i, j = rng.randrange(n), rng.randrange(n)
+        cx, cy = base + rng.choice([0.0, 0.0, 0.5, -0.5, 1.0]), base + rng.choice([0.0, 0.0, 0.5, -0.5])
+        ax = j + 0.5 - (cx + (half if origin == "middle" else 0.0))
+        ay = i + 0.5 - (cy + (half if origin == "middle" else 0.0))
+        r = math.sqrt(ax * ax + ay * ay)
+        r = float(rng.choice([r, r, numpy.nextafter(r, 0.0), numpy.nextafter(r, 1e9)]))
     elif cls == "float":
         r, cx, cy = rng.uniform(0, n), base + rng.uniform(-half - 1, half + 1), base + rng.uniform(-half - 1, half + 1)
     elif cls == "edge":                                # centre on the boundary / in a corner of the array
